@@ -156,6 +156,7 @@ theorem tr_write (hP : TrOK P) (line : Str) (h : ∀ n, line ≠ reqLine n) : Re
     simp only [transportWrite]
     split
     · exact ⟨hs, [⟨line, false⟩], rfl, hP.line _ _ _ h⟩
+    · exact ⟨hs, [⟨line, false⟩], rfl, hP.line _ _ _ h⟩
     · exact ⟨hs, [⟨line, true⟩], rfl, hP.line _ _ _ h⟩
     · exact ⟨hs, [⟨line, true⟩], rfl, hP.line _ _ _ h⟩⟩
 
@@ -528,10 +529,13 @@ theorem epi_wrapMissingNC (n : Int) (m : Msg) (inner : Msg → M Msg) (hi : Rel 
         exact key true _ rfl rfl
       | cons f rest =>
         cases f with
-        | true =>
+        | fail =>
           rw [transportWrite_fail _ _ rest hf]
           exact key false _ rfl rfl
-        | false =>
+        | cancel =>
+          rw [transportWrite_cancel _ _ rest hf]
+          exact key false _ rfl rfl
+        | pass =>
           rw [transportWrite_pass _ _ rest hf]
           exact key true _ rfl rfl
   · exact absurd hy (by simp)
@@ -593,9 +597,11 @@ theorem hVersion_not_missing (m : Msg) (w : W) (e : Exn) (h : (hVersion m w).1 =
     by_cases hp : pyCaught c (clause Gen.excVersion 0) = true <;>
       simp [hg, hp, M.bind, M.raise] at h <;> subst h <;> rfl
 
-/-- The version-query decorator passes the handler's failure on or reports a failed write. -/
+/-- The version-query decorator passes the handler's failure on or reports a write that did not
+complete (failed, or aborted by cancellation). -/
 theorem wrapMissingPV_error (inner : Msg → M Msg) (m : Msg) (w : W) (e : Exn)
-    (h : (wrapMissingPV inner m w).1 = .error e) : (inner m w).1 = .error e ∨ e = .lib .transportFailed := by
+    (h : (wrapMissingPV inner m w).1 = .error e) :
+    (inner m w).1 = .error e ∨ e = .lib .transportFailed ∨ e = .foreign .CancelledError := by
   rw [wrapMissingPV_eq] at h
   dsimp only at h
   generalize ((inner m w).2.st.pv.isNone && _) = c at h
@@ -612,7 +618,8 @@ theorem wrapMissingPV_error (inner : Msg → M Msg) (m : Msg) (w : W) (e : Exn)
         subst h
         simp only [transportWrite] at ht
         split at ht <;> simp at ht
-        exact Or.inr ht.1.symm
+        · exact Or.inr (Or.inl ht.1.symm)
+        · exact Or.inr (Or.inr ht.1.symm)
   | false =>
     simp only [Bool.false_eq_true, if_false] at h
     exact Or.inl h
@@ -627,7 +634,7 @@ theorem node_presentation_not_missing (env : Env) (v : Ver) (m : Msg) (w : W) (h
     split at he
     · exact hVersion_not_missing m _ e he
     · simp [M.pure] at he
-  · subst he; rfl
+  · rcases he with he | he <;> subst he <;> rfl
 
 theorem marker_gone_after_pre (m : Msg) (w : W) (hc : m.child = Gen.systemChildId) (hwf : PDict.WF w.st.ibuf) :
     markedB (prePresentation20 m w).2.st m.node = false := by
